@@ -42,6 +42,7 @@ type c13WLeaf struct {
 	v      any
 	secret bool
 	enum   bool // text-marshalled enumeration: the effective configuration may change the case (Level.MarshalText)
+	list   bool // slice-valued setting (an atom in the Lean decode model: compared by the direct oracles only)
 }
 
 func (i *c13Inst) id() string {
@@ -135,7 +136,10 @@ var c13Catalog = map[string][]c13Special{
 	"exporters/otlphttp": {{"endpoint", "endpoint", nil}, {"headers", "secretmap", nil}, {"tls::ca_pem", "secret", nil}},
 	"exporters/otlp":     {{"endpoint", "endpoint", nil}, {"headers", "secretmap", nil}, {"tls::ca_pem", "secret", nil}},
 	"receivers/otlp": {{"protocols::grpc::endpoint", "endpoint", nil}, {"protocols::http::endpoint", "endpoint", nil},
-		{"protocols::http::response_headers", "secretmap", nil}, {"protocols::grpc::tls::key_pem", "secret", nil}},
+		{"protocols::http::response_headers", "secretmap", nil}, {"protocols::grpc::tls::key_pem", "secret", nil},
+		{"protocols::http::cors::allowed_origins", "strlist", []string{"https://a.example", "https://b.example", "https://*.c.example", "http://d.example"}},
+		{"protocols::http::cors::allowed_headers", "strlist", []string{"x-one", "x-two", "x-three"}},
+		{"protocols::http::compression_algorithms", "strlist", []string{"gzip", "zstd", "snappy", "deflate"}}},
 	"exporters/debug":           {{"verbosity", "enum", []string{"normal", "detailed"}}}, // "basic" is the zero value: dropped by omitempty,
 	"extensions/zpages":         {{"endpoint", "endpoint", nil}},
 	"processors/batch":          nil,
@@ -206,6 +210,7 @@ func TestVerifC13Load(t *testing.T) {
 	}
 	kinds, toggles, defFlat, leafPaths := c13Setup(t, factories)
 	nInvalid := c13InvalidNested(out, factories)
+	nInvalid += c13DefaultsProbe(out, factories, nInvalid)
 	for _, c := range vCases(vN(300)) {
 		if c < nInvalid {
 			continue // case indices 0..nInvalid-1 are the corpus of invalid nested values
@@ -316,6 +321,8 @@ func TestVerifC13Load(t *testing.T) {
 			out.Linef("obs eff %s", c13Pairs(gotS))
 			// the same instance against the Lean decode/encode model on the regenerated schema and default
 			c13Faith(out, in, got, defFlat[in.section+"/"+in.typ], leafPaths[in.section+"/"+in.typ])
+			// isolation: nothing below a map- or slice-valued setting that this instance did not write itself
+			c13Foreign(out, "C13/load/foreign-key-in-instance", in, in.leaves, got, defFlat[in.section+"/"+in.typ], leafPaths[in.section+"/"+in.typ])
 			// direct oracles
 			loaded := c13Loaded(cfg, in.section)[id]
 			if loaded == nil {
@@ -343,6 +350,62 @@ func TestVerifC13Load(t *testing.T) {
 					out.Linef("viol sig=C13/effective/secret-in-effective-config id=%s/%s path=%s (secret text found in the marshalled effective configuration)", in.section, in.id(), l.path)
 				}
 			}
+		}
+		// successive loads in one process: the same document with every map- and slice-valued setting removed
+		// must load as if nothing had been loaded before (what a reload after an edit does)
+		rootB := map[string]any{"service": root["service"]}
+		leavesB := map[*c13Inst][]c13WLeaf{}
+		removed := 0
+		for _, in := range insts {
+			wB := map[string]any{}
+			lp := leafPaths[in.section+"/"+in.typ]
+			for _, l := range in.leaves {
+				under := false
+				for q := l.path; ; {
+					i := strings.LastIndex(q, "::")
+					if i < 0 {
+						break
+					}
+					q = q[:i]
+					if lp[q] {
+						under = true
+					}
+				}
+				if l.list || under {
+					removed++
+					continue
+				}
+				c13SetPath(wB, l.path, l.v)
+				leavesB[in] = append(leavesB[in], l)
+			}
+			sec, _ := rootB[in.section].(map[string]any)
+			if sec == nil {
+				sec = map[string]any{}
+				rootB[in.section] = sec
+			}
+			sec[in.id()] = wB
+		}
+		if removed > 0 {
+			cfgB, errB := c13LoadJSON(factories, rootB)
+			var effB map[string]any
+			if errB == nil {
+				effB, errB = c13EffectiveOf(cfgB)
+			}
+			if errB != nil {
+				out.Linef("viol sig=C13/reload/valid-config-rejected err=%s", vHex(errB.Error()))
+			} else {
+				for _, in := range insts {
+					gotB := map[string]any{}
+					if sec, ok := effB[in.section].(map[string]any); ok {
+						if ie, ok := sec[in.id()].(map[string]any); ok {
+							c13Flatten(ie, "", gotB)
+						}
+					}
+					c13Foreign(out, "C13/reload/removed-key-persists", in, leavesB[in], gotB, defFlat[in.section+"/"+in.typ], leafPaths[in.section+"/"+in.typ])
+				}
+			}
+			out.Linef("stat reload_rounds 1")
+			out.Linef("stat reload_removed_settings %d", removed)
 		}
 		if sameType {
 			out.Linef("nt")
@@ -503,8 +566,11 @@ func c13Faith(out *vOut, in *c13Inst, got map[string]any, def map[string]any, le
 		return id(v)
 	}
 	for _, l := range in.leaves {
-		w[vHex(l.path)] = id(l.v)
 		writtenTop[strings.SplitN(l.path, "::", 2)[0]] = true
+		if l.list {
+			continue
+		}
+		w[vHex(l.path)] = id(l.v)
 		// the queried position: the leaf itself, or the map-kind leaf above it (headers::authorization → headers)
 		q := l.path
 		for q != "" && !leaves[q] {
@@ -682,8 +748,21 @@ func c13GenInsts(rnd *rand.Rand, c int, kinds []string, toggles map[string][]c13
 					v := secret()
 					c13SetPath(in.written, sp.path, v)
 					in.leaves = append(in.leaves, c13WLeaf{path: sp.path, v: v, secret: true})
+				case "strlist":
+					var v []any
+					for _, x := range sp.vals {
+						if rnd.IntN(2) == 0 {
+							v = append(v, x)
+						}
+					}
+					if len(v) == 0 {
+						v = []any{sp.vals[len(insts)%len(sp.vals)]}
+					}
+					c13SetPath(in.written, sp.path, v)
+					in.leaves = append(in.leaves, c13WLeaf{path: sp.path, v: v, list: true})
 				case "secretmap":
-					for _, hk := range []string{"authorization", "x-api-key"}[:1+rnd.IntN(2)] {
+					// header names differ between instances, so that cross-talk between instances of one type shows
+					for _, hk := range []string{"authorization", fmt.Sprintf("x-key-%d", len(insts))}[rnd.IntN(2):] {
 						v := secret()
 						c13SetPath(in.written, sp.path+"::"+hk, v)
 						in.leaves = append(in.leaves, c13WLeaf{path: sp.path + "::" + hk, v: v, secret: true})
@@ -694,4 +773,255 @@ func c13GenInsts(rnd *rand.Rand, c int, kinds []string, toggles map[string][]c13
 		}
 	}
 	return insts, nsec, sameType
+}
+
+// c13Foreign: below a map-valued setting, and in a slice-valued setting, an instance may only show what
+// it wrote itself or what the pristine factory default (taken before anything was loaded) shows.
+func c13Foreign(out *vOut, sig string, in *c13Inst, wrote []c13WLeaf, got map[string]any, def map[string]any, leaves map[string]bool) {
+	written := map[string]bool{}
+	for _, l := range wrote {
+		written[l.path] = true
+	}
+	reported := map[string]bool{}
+	paths := make([]string, 0, len(got))
+	for p := range got {
+		paths = append(paths, p)
+	}
+	sort.Strings(paths)
+	for _, p := range paths {
+		q := p
+		for q != "" && !leaves[q] {
+			if i := strings.LastIndex(q, "::"); i >= 0 {
+				q = q[:i]
+			} else {
+				q = ""
+			}
+		}
+		if q == "" || reported[q] {
+			continue
+		}
+		foreign := false
+		if q != p {
+			// p lies below the map-valued setting q
+			_, inDef := def[p]
+			foreign = !written[p] && !inDef
+		} else if rv := reflect.ValueOf(got[p]); rv.IsValid() && rv.Kind() == reflect.Slice && rv.Len() > 0 {
+			foreign = !written[p] && c13Norm(got[p]) != c13Norm(def[p])
+		}
+		if foreign {
+			reported[q] = true
+			out.Linef("viol sig=%s/%s/%s/%s id=%s leaf=%s value=%s", sig, in.section, in.typ, q, in.id(), p, vHex(c13Norm(got[p])))
+		}
+	}
+}
+
+// c13DefaultsProbe: every factory's CreateDefaultConfig must hand out a value that shares no mutable
+// state with any other one it hands out: no map, slice or pointer reachable from one default is
+// reachable from the next, and mutating every map and slice of one leaves the others unchanged.
+func c13DefaultsProbe(out *vOut, factories otelcol.Factories, first int) int {
+	kinds := make([]string, 0, len(c13Catalog))
+	for k := range c13Catalog {
+		kinds = append(kinds, k)
+	}
+	sort.Strings(kinds)
+	for i, k := range kinds {
+		st := strings.SplitN(k, "/", 2)
+		f := c13Factory(factories, st[0], st[1])
+		out.Linef("case %d defaults-probe=%s", first+i, k)
+		out.Linef("op inst id=%s def=- w=-", vHex("defaults-probe/"+k))
+		out.Linef("obs eff -")
+		a, b := f.CreateDefaultConfig(), f.CreateDefaultConfig()
+		pristine := c13DeepRender(reflect.ValueOf(b), 0)
+		shared := map[string]bool{}
+		c13SharedWalk(reflect.ValueOf(a), reflect.ValueOf(b), "", 0, func(path, what string) {
+			if !shared[path] {
+				shared[path] = true
+				out.Linef("viol sig=C13/defaults/shared-mutable-default/%s/%s kind=%s", k, path, what)
+			}
+		})
+		n := c13MutateAll(reflect.ValueOf(a), 0)
+		out.Linef("stat defaults_probe_mutations %d", n)
+		if after := c13DeepRender(reflect.ValueOf(b), 0); after != pristine {
+			out.Linef("viol sig=C13/defaults/shared-mutable-default/%s/mutation-visible-in-earlier-default before=%s after=%s", k, vHex(pristine), vHex(after))
+		}
+		if third := c13DeepRender(reflect.ValueOf(f.CreateDefaultConfig()), 0); third != pristine {
+			out.Linef("viol sig=C13/defaults/shared-mutable-default/%s/mutation-visible-in-later-default before=%s after=%s", k, vHex(pristine), vHex(third))
+		}
+		out.Linef("nt")
+		out.Linef("end")
+		out.Flush()
+	}
+	return len(kinds)
+}
+
+func c13FieldKey(f reflect.StructField) string {
+	if tag, ok := f.Tag.Lookup("mapstructure"); ok {
+		if k := strings.Split(tag, ",")[0]; k != "" {
+			return k
+		}
+	}
+	return f.Name
+}
+
+// c13SharedWalk walks two values of one type in parallel and reports every position at which both hold
+// the same map, the same (non-empty) slice memory or the same pointer.
+func c13SharedWalk(a, b reflect.Value, path string, depth int, report func(path, what string)) {
+	if depth > 12 || !a.IsValid() || !b.IsValid() || a.Type() != b.Type() {
+		return
+	}
+	join := func(k string) string {
+		if path == "" {
+			return k
+		}
+		return path + "::" + k
+	}
+	switch a.Kind() {
+	case reflect.Pointer:
+		if a.IsNil() || b.IsNil() {
+			return
+		}
+		if a.Pointer() == b.Pointer() && a.Type().Elem().Size() > 0 {
+			report(path, "pointer")
+			return
+		}
+		c13SharedWalk(a.Elem(), b.Elem(), path, depth+1, report)
+	case reflect.Interface:
+		if !a.IsNil() && !b.IsNil() {
+			c13SharedWalk(a.Elem(), b.Elem(), path, depth+1, report)
+		}
+	case reflect.Map:
+		if !a.IsNil() && !b.IsNil() && a.Pointer() == b.Pointer() {
+			report(path, "map")
+		}
+	case reflect.Slice:
+		if a.Len() > 0 && b.Len() > 0 && a.Pointer() == b.Pointer() {
+			report(path, "slice")
+			return
+		}
+		for i := 0; i < a.Len() && i < b.Len(); i++ {
+			c13SharedWalk(a.Index(i), b.Index(i), join("[]"), depth+1, report)
+		}
+	case reflect.Struct:
+		for i := 0; i < a.NumField(); i++ {
+			f := a.Type().Field(i)
+			if strings.Contains(f.Tag.Get("mapstructure"), ",squash") {
+				c13SharedWalk(a.Field(i), b.Field(i), path, depth+1, report) // squashed: its keys live at this level
+				continue
+			}
+			c13SharedWalk(a.Field(i), b.Field(i), join(c13FieldKey(f)), depth+1, report)
+		}
+	}
+}
+
+// c13MutateAll puts a new entry into every reachable settable map and changes the first element of every
+// reachable non-empty settable slice (string / integer / bool elements). Returns the number of mutations.
+func c13MutateAll(v reflect.Value, depth int) int {
+	if depth > 12 || !v.IsValid() {
+		return 0
+	}
+	n := 0
+	switch v.Kind() {
+	case reflect.Pointer, reflect.Interface:
+		if !v.IsNil() {
+			n += c13MutateAll(v.Elem(), depth+1)
+		}
+	case reflect.Struct:
+		for i := 0; i < v.NumField(); i++ {
+			if v.Type().Field(i).IsExported() {
+				n += c13MutateAll(v.Field(i), depth+1)
+			}
+		}
+	case reflect.Map:
+		if v.IsNil() || v.Type().Key().Kind() != reflect.String {
+			return 0
+		}
+		func() {
+			defer func() { _ = recover() }()
+			k := reflect.ValueOf("zz-verif-mutation").Convert(v.Type().Key())
+			v.SetMapIndex(k, reflect.Zero(v.Type().Elem()))
+			n++
+		}()
+	case reflect.Slice:
+		if v.Len() == 0 {
+			return 0
+		}
+		e := v.Index(0)
+		if !e.CanSet() {
+			return 0
+		}
+		switch e.Kind() {
+		case reflect.String:
+			e.SetString(e.String() + "-zz-verif-mutation")
+			n++
+		case reflect.Int, reflect.Int8, reflect.Int16, reflect.Int32, reflect.Int64:
+			e.SetInt(e.Int() + 1)
+			n++
+		case reflect.Uint, reflect.Uint8, reflect.Uint16, reflect.Uint32, reflect.Uint64:
+			e.SetUint(e.Uint() + 1)
+			n++
+		case reflect.Bool:
+			e.SetBool(!e.Bool())
+			n++
+		default:
+			n += c13MutateAll(e, depth+1)
+		}
+	}
+	return n
+}
+
+// c13DeepRender prints a value following pointers (no addresses), maps in key order.
+func c13DeepRender(v reflect.Value, depth int) string {
+	if !v.IsValid() {
+		return "<invalid>"
+	}
+	if depth > 12 {
+		return "<deep>"
+	}
+	switch v.Kind() {
+	case reflect.Pointer, reflect.Interface:
+		if v.IsNil() {
+			return "nil"
+		}
+		return "&" + c13DeepRender(v.Elem(), depth+1)
+	case reflect.Struct:
+		var sb strings.Builder
+		sb.WriteString("{")
+		for i := 0; i < v.NumField(); i++ {
+			sb.WriteString(v.Type().Field(i).Name + ":" + c13DeepRender(v.Field(i), depth+1) + " ")
+		}
+		return sb.String() + "}"
+	case reflect.Map:
+		if v.IsNil() {
+			return "nilmap"
+		}
+		var items []string
+		for _, k := range v.MapKeys() {
+			items = append(items, c13DeepRender(k, depth+1)+"="+c13DeepRender(v.MapIndex(k), depth+1))
+		}
+		sort.Strings(items)
+		return "map[" + strings.Join(items, " ") + "]"
+	case reflect.Slice, reflect.Array:
+		var sb strings.Builder
+		sb.WriteString("[")
+		for i := 0; i < v.Len(); i++ {
+			sb.WriteString(c13DeepRender(v.Index(i), depth+1) + " ")
+		}
+		return sb.String() + "]"
+	case reflect.Func, reflect.Chan, reflect.UnsafePointer:
+		if v.IsNil() {
+			return "nilfunc"
+		}
+		return "func"
+	case reflect.String:
+		return fmt.Sprintf("%q", v.String())
+	case reflect.Bool:
+		return fmt.Sprint(v.Bool())
+	case reflect.Int, reflect.Int8, reflect.Int16, reflect.Int32, reflect.Int64:
+		return fmt.Sprint(v.Int())
+	case reflect.Uint, reflect.Uint8, reflect.Uint16, reflect.Uint32, reflect.Uint64, reflect.Uintptr:
+		return fmt.Sprint(v.Uint())
+	case reflect.Float32, reflect.Float64:
+		return fmt.Sprint(v.Float())
+	}
+	return "<" + v.Kind().String() + ">"
 }
